@@ -102,6 +102,18 @@ class Ctx:
         self.transitions += stats.get("edges", 0)
 
 
+def shared(ctx, RULE, fn, *args, **kw):
+    """run a rule of another property's module and report what it finds under this property's rule id"""
+    before_v, before_i = len(ctx.violations), len(ctx.instances)
+    r = fn(*args, **kw)
+    for v in ctx.violations[before_v:]:
+        v["rule"] = RULE
+        v["key"] = "%s/%s/%s" % (ctx.prop, RULE, v["instance"])
+    for i in ctx.instances[before_i:]:
+        i["rule"] = RULE
+    return r
+
+
 def load_known():
     """known_findings.txt:  open:  property=<id> key=<key> <what>   |  fixed: property=<id> <commit> <what>"""
     opens = {}
